@@ -329,7 +329,10 @@ func (p *Prog) lookupTables(body *ast.BlockStmt, pk *packages.Package) []switchT
 						if c == nil {
 							continue
 						}
-						t.entries = append(t.entries, caseEntry{pos: kv.Pos(), consts: []*types.Const{c}, results: []ast.Expr{kv.Value}, body: []ast.Stmt{&ast.ExprStmt{X: kv.Value}}})
+						ent := caseEntry{pos: kv.Pos(), consts: []*types.Const{c}, body: []ast.Stmt{&ast.ExprStmt{X: kv.Value}}}
+						fillBody(&ent) // string literals of the value (format strings held in the table)
+						ent.results = []ast.Expr{kv.Value}
+						t.entries = append(t.entries, ent)
 					}
 					if len(t.entries) >= 2 {
 						out = append(out, t)
